@@ -11,7 +11,9 @@
 
    The action chain is [A0: filter, A1: join-like]: an event's class decides what each action
    returns (P pass, D discard at A0, B break at A0, H hold at A1, C collapse into a held run at A1,
-   R refused at admission).  Mechanism switches M_* (all TRUE = the code as it is) let TLC produce
+   R refused at admission, S split at A0: Spawn produces KidsPer child events that run through A1 and to the output
+   inside the parent's Do call, then the parent breaks out and follows them to the output as a child-parent event,
+   which no send function sees and whose Commit is the one the input is notified of).  Mechanism switches M_* (all TRUE = the code as it is) let TLC produce
    the shortest schedule that distinguishes an implementation with the mechanism from one without;
    D_* switches name behaviour of the real code that deviates from the ideal.
 
@@ -22,12 +24,16 @@ CONSTANTS
   Srcs, Strs,          \* source ids, stream names
   Classes,             \* subset of {"P","D","B","H","C","R"} the lines are drawn from
   NProcs, Capacity, NWorkers, BatchCount, Retry, HasDQ, MaxFails,
+  KidsPer, KidBase,        \* split: children per S line (0 = no split); the children of line e carry the ids
+                           \* KidBase + KidsPer*(e-1) + 1..KidsPer (the numbering of the harness: KidBase = 20, KidsPer = 2);
+                           \* the lines are 1..NL with NL = (MaxId - KidBase) / KidsPer <= KidBase
   M_SeqCommit,             \* commitBatch waits for its turn (commitSeq = batch.seq)
   M_NoNotifyOnDiscard,     \* discard/collapse/hold finalize WITHOUT notifying the input
   M_DetachWhenCommitted,   \* a stream is released only when away = commit
   M_RetryHolds,            \* nothing is committed while the retry loop is pending
   M_DQEmptiesBatch,        \* after the dead-queue hand-over the main batch is emptied
-  M_CommitMax              \* stream.commit keeps the maximum
+  M_CommitMax,             \* stream.commit keeps the maximum
+  M_TimerFlushesAny        \* the batch heartbeat seals ANY non-empty open batch, also one that holds only split parents
 
 Procs == 1..NProcs
 Workers == 1..NWorkers
@@ -57,9 +63,20 @@ view == <<lines, rd, inUse, st, seqOf, charged, pr, bt, wk, nfail,
           [b \in Batchers |-> SeqToSet(obs.bcommit[b])]>>
 
 NoSid == <<0, "">>
-IdleProc == [pc |-> "join", sid |-> NoSid, ev |-> 0, act |-> 0, held |-> 0, busy |-> FALSE]
+IdleProc == [pc |-> "join", sid |-> NoSid, ev |-> 0, act |-> 0, held |-> 0, busy |-> FALSE, kid |-> 0]
 IdleWorker == [pc |-> "idle", ids |-> <<>>, seq |-> 0, tries |-> 0, i |-> 0]
-SidOf(e) == <<lines[e].src, lines[e].stream>>
+NL == IF KidsPer = 0 THEN MaxId ELSE (MaxId - KidBase) \div KidsPer       \* number of line ids (NL <= KidBase)
+NLines == Len(lines)
+IsKid(e) == KidsPer > 0 /\ e > KidBase
+ParentOf(k) == ((k - KidBase - 1) \div KidsPer) + 1
+Kids(e) == [i \in 1..KidsPer |-> KidBase + KidsPer * (e - 1) + i]
+Cls(e) == IF IsKid(e) THEN "K" ELSE lines[e].cls
+IsParent(e) == KidsPer > 0 /\ e # 0 /\ ~IsKid(e) /\ lines[e].cls = "S"
+LineOf(e) == IF IsKid(e) THEN ParentOf(e) ELSE e
+SidOf(e) == <<lines[LineOf(e)].src, lines[LineOf(e)].stream>>
+\* the event a processor is working on: its stream's event, or the child of it that is being pushed through
+Cur(p) == IF pr[p].kid = 0 THEN pr[p].ev ELSE Kids(pr[p].ev)[pr[p].kid]
+HasIter(ids) == \E i \in 1..Len(ids) : ~IsParent(ids[i])
 OffOf(e) == e * 10          \* offsets grow with read order
 
 \* everything except the choice of the lines (used by trace validation, where the lines are those of the recorded run)
@@ -73,12 +90,12 @@ InitRest ==
                                outSeq |-> 0, commitSeq |-> 0, lock |-> 0]]
   /\ wk = [b \in Batchers |-> [k \in Workers |-> IdleWorker]]
   /\ nfail = 0
-  /\ obs = ObsNew([cap |-> Capacity, batch |-> BatchCount, dqbatch |-> BatchCount, retry |-> Retry, dq |-> HasDQ, gaps |-> FALSE, retention |-> 0, mult10 |-> 10])
+  /\ obs = ObsNew([cap |-> Capacity, batch |-> BatchCount, dqbatch |-> BatchCount, retry |-> Retry, dq |-> HasDQ, gaps |-> KidsPer > 0, retention |-> 0, mult10 |-> 10])
   /\ sched = <<>>
 
 Init ==
-  /\ lines \in [Ev -> [src : Srcs, stream : Strs, cls : Classes]]
-  /\ \A e \in Ev : e > 1 => lines[e].src >= lines[e - 1].src      \* symmetry: sources in blocks
+  /\ lines \in [1..NL -> [src : Srcs, stream : Strs, cls : Classes]]
+  /\ \A e \in 1..NL : e > 1 => lines[e].src >= lines[e - 1].src      \* symmetry: sources in blocks
   /\ InitRest
 InitWith(L) == lines = L /\ InitRest
 \* the same as an action (trace validation of several recorded runs in one file: a Reset line starts the next run)
@@ -93,7 +110,7 @@ ResetWith(L) ==
                                 outSeq |-> 0, commitSeq |-> 0, lock |-> 0]]
   /\ wk' = [b \in Batchers |-> [k \in Workers |-> IdleWorker]]
   /\ nfail' = 0
-  /\ obs' = ObsNew([cap |-> Capacity, batch |-> BatchCount, dqbatch |-> BatchCount, retry |-> Retry, dq |-> HasDQ, gaps |-> FALSE,
+  /\ obs' = ObsNew([cap |-> Capacity, batch |-> BatchCount, dqbatch |-> BatchCount, retry |-> Retry, dq |-> HasDQ, gaps |-> KidsPer > 0,
                     retention |-> 0, mult10 |-> 10])
   /\ sched' = <<>>
 
@@ -121,7 +138,7 @@ Finalize(e, notify, back, by, S, Ch, U, O) ==
 -----------------------------------------------------------------------------
 (* reader: Pipeline.In *)
 ReadIn ==
-  /\ rd < MaxId
+  /\ rd < NLines
   /\ LET e == rd + 1
          sid == SidOf(e)
          s == st[sid]
@@ -203,7 +220,7 @@ Added(B, e) ==
 \* A1 must first flush its held run (Propagate -> Router.Out) when a non-continuation arrives
 NeedsFlush(p) ==
   /\ pr[p].pc = "act" /\ pr[p].act = 1 /\ pr[p].held # 0
-  /\ (IF pr[p].ev = 0 THEN TRUE ELSE lines[pr[p].ev].cls # "C")
+  /\ (IF Cur(p) = 0 THEN TRUE ELSE Cls(Cur(p)) # "C")
 
 Flush(p) ==
   /\ NeedsFlush(p)
@@ -216,11 +233,12 @@ Flush(p) ==
 \* one action of the chain returns its result for the current event
 DoAct(p) ==
   /\ pr[p].pc = "act" /\ ~NeedsFlush(p)
-  /\ LET e == pr[p].ev
+  /\ LET e == Cur(p)
          a == pr[p].act
-         cls == IF e = 0 THEN "T" ELSE lines[e].cls
+         cls == IF e = 0 THEN "T" ELSE Cls(e)
          res == IF e = 0 THEN (IF a = 0 THEN "pass" ELSE "discard")          \* time-out: A0 passes it on, A1 discards it
-                ELSE IF a = 0 THEN (CASE cls = "D" -> "discard" [] cls = "B" -> "break" [] OTHER -> "pass")
+                ELSE IF a = 0 THEN (CASE cls = "D" -> "discard" [] cls = "B" -> "break"
+                                      [] cls = "S" /\ KidsPer > 0 -> "spawn" [] OTHER -> "pass")
                 ELSE (CASE cls = "H" -> "hold"
                         [] cls = "C" -> IF pr[p].held # 0 THEN "collapse" ELSE "pass"
                         [] OTHER -> "pass")
@@ -229,6 +247,10 @@ DoAct(p) ==
         /\ CASE res = "pass" /\ a = 0 ->
                   /\ pr' = [pr EXCEPT ![p].act = 1]
                   /\ UNCHANGED <<st, charged, inUse, obs>>
+             [] res = "spawn" ->                                               \* processor.Spawn: the first child enters A1
+                  /\ pr' = [pr EXCEPT ![p] = [@ EXCEPT !.kid = 1, !.act = 1]]
+                  /\ obs' = OSpawn(obs, e, Kids(e))
+                  /\ UNCHANGED <<st, charged, inUse>>
              [] res \in {"pass", "break"} /\ (a = 1 \/ res = "break") ->
                   /\ pr' = [pr EXCEPT ![p].pc = "out"]
                   /\ obs' = ODo(obs, e, res)
@@ -252,10 +274,22 @@ DoAct(p) ==
 Out(p) ==
   /\ pr[p].pc = "out"
   /\ CanAdd("main")
-  /\ bt' = [bt EXCEPT !["main"] = Added(@, pr[p].ev)]
-  /\ obs' = OAdd(obs, "main", pr[p].ev)
-  /\ pr' = [pr EXCEPT ![p] = [@ EXCEPT !.pc = "get", !.ev = 0]]
+  /\ bt' = [bt EXCEPT !["main"] = Added(@, Cur(p))]
+  /\ obs' = OAdd(obs, "main", Cur(p))
+  /\ pr' = [pr EXCEPT ![p] =
+              IF pr[p].kid = 0
+                THEN \* processSequence: with a busy action the processor goes on with blockGet, otherwise instantGet
+                     [@ EXCEPT !.pc = IF pr[p].busy THEN "blockget" ELSE "get", !.ev = 0]
+              ELSE IF pr[p].kid < KidsPer THEN [@ EXCEPT !.pc = "act", !.act = 1, !.kid = @ + 1]     \* next child
+              ELSE [@ EXCEPT !.pc = "spawned", !.kid = 0]]
   /\ UNCHANGED <<lines, rd, inUse, st, seqOf, charged, wk, nfail, sched>>
+
+\* Spawn returned: the split action returns ActionBreak for the parent, which goes to the output after its children
+SpawnDone(p) ==
+  /\ pr[p].pc = "spawned"
+  /\ obs' = ODo(obs, pr[p].ev, "break")
+  /\ pr' = [pr EXCEPT ![p].pc = "out"]
+  /\ UNCHANGED <<lines, rd, inUse, st, seqOf, charged, bt, wk, nfail, sched>>
 
 -----------------------------------------------------------------------------
 (* batcher (b \in Batchers) *)
@@ -263,6 +297,7 @@ Out(p) ==
 \* heartbeat: a non-empty open batch older than the flush timeout is sealed
 FlushTimer(b) ==
   /\ bt[b].hasCur /\ bt[b].cur # <<>>
+  /\ (M_TimerFlushesAny \/ HasIter(bt[b].cur))
   /\ bt' = [bt EXCEPT ![b] = [@ EXCEPT !.full = Append(@, [ids |-> bt[b].cur, seq |-> bt[b].outSeq]),
                                        !.outSeq = @ + 1, !.cur = <<>>, !.hasCur = FALSE]]
   /\ sched' = Append(sched, <<"flush", b, 0>>)
@@ -270,7 +305,8 @@ FlushTimer(b) ==
 
 WorkerTake(b, k) ==
   /\ wk[b][k].pc = "idle" /\ bt[b].full # <<>>
-  /\ wk' = [wk EXCEPT ![b][k] = [pc |-> "send", ids |-> Head(bt[b].full).ids, seq |-> Head(bt[b].full).seq,
+  /\ wk' = [wk EXCEPT ![b][k] = [pc |-> IF HasIter(Head(bt[b].full).ids) THEN "send" ELSE "turn",   \* batch.hasIterableEvents
+                                  ids |-> Head(bt[b].full).ids, seq |-> Head(bt[b].full).seq,
                                   tries |-> 0, i |-> 0]]
   /\ bt' = [bt EXCEPT ![b].full = Tail(@)]
   /\ UNCHANGED <<lines, rd, inUse, st, seqOf, charged, pr, nfail, obs, sched>>
@@ -336,8 +372,10 @@ CommitOne(b, k) ==
   /\ wk[b][k].pc = "commit"
   /\ wk[b][k].i <= Len(wk[b][k].ids)
   /\ LET e == wk[b][k].ids[wk[b][k].i]
-         f == Finalize(e, TRUE, TRUE, b, st, charged, inUse, OBatchCommit(obs, b, e, FALSE))
-     IN /\ st' = f[1] /\ charged' = f[2] /\ inUse' = f[3] /\ obs' = f[4]
+         f == Finalize(e, TRUE, TRUE, b, st, charged, inUse, OBatchCommit(obs, b, e, IsParent(e)))
+     IN IF IsKid(e)                                   \* finalize returns at once for a child event
+          THEN obs' = OBatchCommit(obs, b, e, FALSE) /\ UNCHANGED <<st, charged, inUse>>
+          ELSE st' = f[1] /\ charged' = f[2] /\ inUse' = f[3] /\ obs' = f[4]
   /\ wk' = [wk EXCEPT ![b][k].i = @ + 1]
   /\ UNCHANGED <<lines, rd, seqOf, pr, bt, nfail, sched>>
 
@@ -349,7 +387,7 @@ CommitDone(b, k) ==
   /\ UNCHANGED <<lines, rd, inUse, st, seqOf, charged, pr, nfail, obs, sched>>
 
 -----------------------------------------------------------------------------
-ProcStep(p) == JoinPop(p) \/ Attach(p) \/ InstantGet(p) \/ BlockGet(p) \/ TimeoutInject(p) \/ Flush(p) \/ DoAct(p) \/ Out(p)
+ProcStep(p) == JoinPop(p) \/ Attach(p) \/ InstantGet(p) \/ BlockGet(p) \/ TimeoutInject(p) \/ Flush(p) \/ DoAct(p) \/ Out(p) \/ SpawnDone(p)
 BatchStep(b, k) == WorkerTake(b, k) \/ SendCall(b, k) \/ SendOK(b, k) \/ SendFail(b, k) \/ RetryOrGiveUp(b, k)
                    \/ FailOne(b, k) \/ CommitTurn(b, k) \/ CommitOne(b, k) \/ CommitDone(b, k)
 UsedBatchers == IF HasDQ THEN Batchers ELSE {"main"}
@@ -372,7 +410,7 @@ FairSpec == Spec /\ Fair
 -----------------------------------------------------------------------------
 (* quiescence: everything read, nothing queued, nobody busy *)
 Quiescent ==
-  /\ rd = MaxId
+  /\ rd = NLines
   /\ \A s \in Sids : st[s].q = <<>>
   /\ \A p \in Procs : pr[p].pc = "join"
   /\ \A b \in UsedBatchers : bt[b].cur = <<>> /\ bt[b].full = <<>> /\ \A k \in Workers : wk[b][k].pc = "idle"
@@ -396,7 +434,7 @@ C08 == Holds(obs, KindsC08)
 C09 == Holds(obs, KindsC09)
 AtQuiescence == Quiescent => OEnd(obs, inUse, 0).viol = {}
 \* exclusive ownership of a stream: at most one processor between attach and leave
-OneOwner == \A p, q \in Procs : p # q /\ pr[p].pc \in {"get", "act", "out", "blockget"} /\ pr[q].pc \in {"get", "act", "out", "blockget"}
+OneOwner == \A p, q \in Procs : p # q /\ pr[p].pc \in {"get", "act", "out", "blockget", "spawned"} /\ pr[q].pc \in {"get", "act", "out", "blockget", "spawned"}
                                   => pr[p].sid # pr[q].sid
 \* a charged stream is never owned and appears once
 ChargedOnce == \A i, j \in 1..Len(charged) : i # j => charged[i] # charged[j]
